@@ -519,7 +519,7 @@ var vfCtl struct {
 	gen      int
 }
 
-const vfGrace = 40 * time.Millisecond
+var vfGrace = 40 * time.Millisecond // raised on later attempts: a loaded machine can make a running goroutine look blocked
 
 func vfCtlStart(script []vfSchedEntry, baseG int) {
 	c := &vfCtl
@@ -767,10 +767,16 @@ func vfReplayMain(vfRegistry map[string]func()) {
 		n := 1
 		if vfState.data.Retry {
 			n = attempts
+		} else if len(vfState.data.Sched) > 0 {
+			n = 3 // schedule replays: retried with a longer grace period (40, 160, 640 ms) before giving up
 		}
 		fmt.Printf("VF-BEGIN %d\n", ix)
 		for i := 0; i < n && !found; i++ {
 			vfResetRun()
+			vfGrace = 40 * time.Millisecond
+			if !vfState.data.Retry && i > 0 {
+				vfGrace = 40 * time.Millisecond << (2 * uint(i))
+			}
 			vfCtlStart(vfState.data.Sched, vfState.data.BaseG)
 			crash := vfRunOnce(h)
 			vfCtlStop()
